@@ -96,6 +96,8 @@ func PlayGrid(tier string) []*Config {
 		add(cfg(br, 0, 1, 2, 0, false, 0, "no", "sv:1,0,1,1,0", 2, 0, "standard", "classes"))
 	}
 	add(cfg([]int64{2, 4, 1, 3, 2, 4}, 1, 1, 2, 0, false, 3, "no", "sv:2,0,2,1,1,0", 2, 0, "standard", "classes"))
+	// three-way tie over a pot of three contribution levels (both blinds fold at different amounts)
+	add(cfg([]int64{4, 4, 4, 4, 4}, 0, 1, 3, 0, false, 0, "no", "sv:1,0,0,1,1", 2, 0, "standard", "classes"))
 	add(cfg([]int64{3, 3, 3, 3, 3, 3}, 0, 1, 2, 0, true, 1, "pot", "royal52", 2, 0, "standard", "classes"))
 
 	if tier != "thorough" {
